@@ -26,7 +26,7 @@ if [ -f "$d/demo_test.go" ]; then
   cp "$d/demo_test.go" tests/zz_seed_demo_test.go
   names="$(grep -o '^func Test[A-Za-z0-9_]*' tests/zz_seed_demo_test.go | sed 's/func //' | paste -sd'|')"
   (cd tests && go test -vet=off -count=1 -run "^($names)\$" . > "$t/demo_with.out" 2>&1); with=$?
-  git stash -q -- . ':!tests/zz_seed_demo_test.go' 2>/dev/null || git checkout -q -- $(git diff --name-only)
+  git checkout -q -- $(git diff --name-only)
   (cd tests && go test -vet=off -count=1 -run "^($names)\$" . > "$t/demo_without.out" 2>&1); without=$?
 else
   mkdir -p zz_seed_demo && cp "$d"/demo/*.go zz_seed_demo/
